@@ -376,7 +376,11 @@ def World.step (w : World) (line : String) : World :=
             let (c, first, _) := acc
             let (c, pid) := c.sendBunch w.env sub
             (c, if first == -1 then pid else first, pid)) (wr.ep.c, -1, -1)
-          (w.putConn (n 0) r { wr with ep := { wr.ep with c := c } }).say s!"ret {first} {last}"
+          let frs := Large.split b
+          let sum := (frs.map (·.data.length)).sum
+          let shape := (match frs.head? with | some f => (if f.bPartial then 1 else 0) + (if f.bPartialInitial then 2 else 0) | none => 0)
+                     + (match frs.getLast? with | some f => (if f.bPartial then 4 else 0) + (if f.bPartialFinal then 8 else 0) | none => 0)
+          (w.putConn (n 0) r { wr with ep := { wr.ep with c := c } }).say s!"ret {first} {last} {frs.length} {sum} {shape}"
         | _ => w
       | none => w
     | "flush" =>
